@@ -1,5 +1,5 @@
 --------------------------- MODULE MPSerializeTrace ---------------------------
-(* record == [id, mode, toks, reparsed, same, sameresults]: the real to_string output lexed back by the real parser          *)
+(* record == [id, mode, toks, reparsed, same, sameresults, filesame] (filesame: to_file by path and by file object left exactly to_string() behind): the real to_string output lexed back by the real parser          *)
 (* (`reparsed`: <<"ok", abstract program>> | <<"err", class>>) must denote the program that was serialised, and the reloaded  *)
 (* program must have equal cleaned values (`same`) and equal results after run (`sameresults`).                              *)
 EXTENDS MPSyntaxDefs, Json, IOUtils
@@ -8,7 +8,8 @@ VARIABLES tid, verdict
 T == Traces[tid]
 Judge(t) == IF t.reparsed[1] = "err" THEN "C15.DoesNotLoad"
             ELSE IF ~t.same THEN "C15.ValuesDiffer"
-            ELSE IF ~t.sameresults THEN "C15.ResultsDiffer" ELSE "ok"
+            ELSE IF ~t.sameresults THEN "C15.ResultsDiffer"
+            ELSE IF ~t.filesame THEN "C15.FileDiffers" ELSE "ok"
 TInit == tid \in 1..Len(Traces) /\ verdict = "pending"
 TNext == verdict = "pending" /\ verdict' = Judge(T) /\ UNCHANGED tid
 TReport == verdict # "pending" => PrintT(<<"VERDICT", T.id, verdict>>)
